@@ -23,12 +23,17 @@ HTLC_GEN = T([dict(cfg="GEN_HTLC.cfg", num=8, depth=26, seeds=8)],
              [dict(cfg="GEN_HTLC.cfg", num=40, depth=30, seeds=14)])
 HTLC_SCN = [dict(file="scenarios/htlc_boundary.ndjson", cfg="users=2"),
             dict(file="scenarios/htlc_limits.ndjson", cfg="users=2"),
-            dict(file="scenarios/htlc_asset_removed.ndjson", cfg="users=2")]
+            dict(file="scenarios/htlc_asset_removed.ndjson", cfg="users=2"),
+            # known finding F28 / F28b (findings/htlc.md H1): recipient = the htlc module account
+            dict(file="scenarios/htlc_to_module.ndjson", cfg="users=2")]
 HTLC_MC = T([dict(cfg="MC_HTLC.cfg", timeout=900, heap="4g"), dict(cfg="MC_HTLC_assets.cfg", timeout=900, heap="4g"),
-             dict(cfg="MC_HTLC_window.cfg", timeout=900, heap="4g")],
+             dict(cfg="MC_HTLC_window.cfg", timeout=900, heap="4g"),
+             # the model with a contract payable to the module account; clauses modulo known finding H1 (F28)
+             dict(cfg="MC_HTLC_ModH1.cfg", timeout=900, heap="4g")],
             [dict(cfg="MC_HTLC_big.cfg", timeout=3000, heap="6g"), dict(cfg="MC_HTLC_assets_big.cfg", timeout=3000, heap="6g"),
              dict(cfg="MC_HTLC_window_big.cfg", timeout=3000, heap="6g"),
-             dict(cfg="MC_HTLC_both_big.cfg", timeout=3400, heap="6g")])
+             dict(cfg="MC_HTLC_both_big.cfg", timeout=3400, heap="6g"),
+             dict(cfg="MC_HTLC_ModH1.cfg", timeout=900, heap="4g")])
 
 # histories recorded (VERIF_RECORD_DIR) for the cross-module checks C11 / C12
 RECORD = [dict(binary="htlc", n=T(3, 12), len=40, cfg="users=3,limit1=6,limit2=6,tbl2=4,period=60,initbal=6")]
@@ -39,7 +44,8 @@ HTLC_ASSUME = ["TLC 1.8, SANY, CommunityModules Json", "Go toolchain, cosmos-sdk
                "binding secret/timestamp/contract only",
                "height compression for TLC-generated behaviours (model lock k = real lock 50k, DESIGN 4.2); "
                "random and scripted histories run at real block granularity",
-               "no account donates to the htlc module account and no contract names it as recipient"]
+               "no account donates to the htlc module account; contracts naming it as recipient strand their "
+               "coins there (known finding F28, masked exactly by the ghost gh.stranded)"]
 
 PROPS = {
     "C03": ModuleCheck("htlc", "HTLC.tla", "HTLCTrace.tla", "HTLCTrace.cfg", HTLC_CLAUSES_C03,
@@ -48,14 +54,14 @@ PROPS = {
                                  "claim_plain_ok", "claim_in_ok", "claim_out_ok", "claim_by_third_party",
                                  "claim_wrong_secret", "claim_other_ts", "claim_other_contract", "claim_second",
                                  "claim_after_refund", "claim_in_expiry_block", "claim_last_block",
-                                 "refund_plain", "refund_in", "refund_out", "refund_many"],
+                                 "refund_plain", "refund_in", "refund_out", "refund_many", "claim_to_module"],
                        gen_cfg=HTLC_GEN_CFG, assumptions=HTLC_ASSUME),
     "C04": ModuleCheck("htlc", "HTLC.tla", "HTLCTrace.tla", "HTLCTrace.cfg", HTLC_CLAUSES_C04,
                        HTLC_MC, HTLC_GEN, HTLC_RND, scenarios=HTLC_SCN,
                        required=["create_plain_ok", "create_in_ok", "create_out_ok", "claim_in_ok", "claim_out_ok",
                                  "refund_plain", "refund_in", "refund_out", "window_reset", "window_accum",
                                  "limit_rej", "time_limit_rej", "params_update", "limit_after_update",
-                                 "asset_removed_inflight", "claim_in_rej"],
+                                 "asset_removed_inflight", "claim_in_rej", "claim_to_module"],
                        gen_cfg=HTLC_GEN_CFG, assumptions=HTLC_ASSUME),
 }
 
@@ -76,7 +82,9 @@ TEXT = {
         note="Trusted: TLC/SANY/CommunityModules Json, Go toolchain, cosmos-sdk bank/auth, the harness projection and "
              "its sha256 binding of secret names to hash locks and ids.  Time locks on chain are >= 50 blocks: empty "
              "blocks are executed for real and logged as one Skip event (specified as the n-fold begin block).  "
-             "Contracts whose recipient is the htlc module account itself are outside the drivers (findings/htlc.md)."),
+             "Known finding F28/F28b (findings/htlc.md H1): a claimed contract whose recipient is the htlc module "
+             "account leaves its coins in escrow; masked only on lines where C04_Escrow / C03_ExactlyOnce hold "
+             "once the ghost gh.stranded is subtracted (why = to_escrow), any other discrepancy stays a violation."),
     "C04": dict(
         design="DESIGN.md 8 (C04), 3, 4.2",
         text="Same specification and traces as C03; state clauses after every event (hence at every block boundary): "
